@@ -205,7 +205,7 @@ func main() {
 			defer wg.Done()
 			sem <- true
 			defer func() { <-sem }()
-			c := &Config{MaxSteps: 4000000, MaxBlockVisits: 400, MaxEnum: 8, MaxPaths: 20000, Workers: nw, TimeoutMs: 30000,
+			c := &Config{MaxSteps: 4000000, MaxBlockVisits: 400, MaxEnum: 8, MaxPaths: 20000, Workers: nw, TimeoutMs: 12000,
 				InjectiveSprintf: true, Solver: *solver, LogSMT: *logSMT, Known: known, Tier: *tier, Seed: seed, DecodeMaxLen: 2, ParamMaxLen: 2}
 			if cc.MaxPaths > 0 {
 				c.MaxPaths = cc.MaxPaths
@@ -223,6 +223,18 @@ func main() {
 				}
 				for _, n := range ex.engineErrs {
 					fmt.Fprintln(os.Stderr, "  engine:", n)
+				}
+				type kv struct {
+					k string
+					v int
+				}
+				var fs []kv
+				for k, v := range ex.forkSites {
+					fs = append(fs, kv{k, v})
+				}
+				sort.Slice(fs, func(i, j int) bool { return fs[i].v > fs[j].v })
+				for i := 0; i < len(fs) && i < 12; i++ {
+					fmt.Fprintf(os.Stderr, "  fork %6d %s\n", fs[i].v, fs[i].k)
 				}
 				fmt.Fprintf(os.Stderr, "[%s] paths=%d states=%d obligations=%d time=%.1fs\n", e.Name(), ex.paths, ex.states, len(ex.obs), time.Since(ex.start).Seconds())
 			}
